@@ -4,7 +4,6 @@ import amaranth.lib.memory as memory
 from amaranth_types import ShapeLike
 import amaranth_types.memory as amemory
 
-from transactron.utils.amaranth_ext.elaboratables import OneHotMux
 from transactron.utils.transactron_helpers import from_method_layout, make_layout
 from ..core import *
 from ..utils import SrcLoc, get_src_loc, MultiPriorityEncoder
@@ -121,27 +120,28 @@ class MemoryBank(Elaboratable):
         overflow_next = [Signal(self.shape) for _ in range(self.reads_ports)]
         overflow_addr = [Signal(range(self.depth), reset_less=True) for _ in range(self.reads_ports)]
 
+        def apply_writes(value: Value, addr: Value) -> Value:
+            # the value of the memory cell `addr` after the writes of the current cycle, merged granule by granule
+            for port in write_port:
+                data = Value.cast(port.data)
+                gran_width = len(value) // len(port.en)
+                value = Cat(
+                    Mux(
+                        port.en[k] & (port.addr == addr),
+                        data[k * gran_width : (k + 1) * gran_width],
+                        value[k * gran_width : (k + 1) * gran_width],
+                    )
+                    for k in range(len(port.en))
+                )
+            return value
+
         for i in range(self.reads_ports):
             if self.read_on_resp:
-                read_output_addr_match = [
-                    write_port[j].en & (write_port[j].addr == read_output_addr[i]) for j in range(self.writes_ports)
-                ]
-                overflow_addr_match = [
-                    write_port[j].en & (write_port[j].addr == overflow_addr[i]) for j in range(self.writes_ports)
-                ]
-                m.d.comb += read_output_next[i].eq(
-                    OneHotMux.create(
-                        m,
-                        [(read_output_addr_match[j], write_port[j].data) for j in range(self.writes_ports)],
-                        read_port[i].data,
-                    )
+                m.d.comb += Value.cast(read_output_next[i]).eq(
+                    apply_writes(Value.cast(read_port[i].data), read_output_addr[i])
                 )
-                m.d.comb += overflow_next[i].eq(
-                    OneHotMux.create(
-                        m,
-                        [(overflow_addr_match[j], write_port[j].data) for j in range(self.writes_ports)],
-                        overflow_data[i],
-                    )
+                m.d.comb += Value.cast(overflow_next[i]).eq(
+                    apply_writes(Value.cast(overflow_data[i]), overflow_addr[i])
                 )
                 m.d.sync += overflow_data[i].eq(overflow_next[i])
             else:
